@@ -69,6 +69,8 @@ pub trait Store: GarnishData<Size = usize, Number = SimpleNumber, Char = char, B
     fn compact(&mut self, _roots: &[usize]) -> Option<Result<Vec<usize>, String>> {
         None
     }
+    /// mark everything stored so far (program constants, the input value) as not collectable
+    fn retain_now(&mut self) {}
 }
 
 // ---- scripted callbacks, shared by both stores
@@ -233,6 +235,9 @@ macro_rules! basic_common {
         }
         fn compact(&mut self, roots: &[usize]) -> Option<Result<Vec<usize>, String>> {
             Some(self.optimize(roots).map_err(|e| format!("{}", e)))
+        }
+        fn retain_now(&mut self) {
+            self.retain_all_current_data();
         }
     };
 }
